@@ -248,7 +248,7 @@ def build_b(ctx, idx, qnode, defines=(), nm=3, tag=''):
 
 def unwindset_b(nm):
     n1 = nm + 2
-    return {'in_list.0': n1, 'setup_list.0': n1, 'setup_list.1': n1, 'setup_list.2': n1, 'child.0': 9, '_ZN6engine14generate_movesERKNS_8PositionENS_5ColorEPj.0': n1,
+    return {'in_list.0': n1, 'setup_list.0': n1, 'setup_list.1': n1, 'setup_list.2': n1, 'child.0': 17, 'child.1': 9, 'common_post.0': 17, 'setup_node.0': 9, '_ZN6engine14generate_movesERKNS_8PositionENS_5ColorEPj.0': n1,
             'search_node.0': n1, 'search_node.1': n1, 'search_node.2': n1, 'qsearch_node.0': n1, 'qsearch_node.1': n1, '_ZN6engine23add_new_move_to_pv_listEPNS_4InfoEjS1_.0': 12,
             B_GLUE['order'] + '.0': 4}
 
